@@ -40,6 +40,7 @@ Fifth round: C19.3 the partition record is read from the admin store at every re
 Sixth round: C19.3 the id the listing decodes from a DN is built like the id of the request (tenant order, separators; shared with C15.5).
 Seventh round: C19.2 Admin.get lets 'no such object' escape (the API turns exactly that into a zero-capacity partition); C19.3 the reservation being replaced is excluded in both accountings, overall and per trait.
 Eighth round: C19.3 the assignment operations write only the `assignments` attribute of the shared cell-allocation record.
+Ninth round: C19.1 CellAllocation.from_entry gives cpu, memory and disk each its default under the test that that key is missing; C19.5 cpu_units tests the percent suffix on the stripped value.
 Does NOT decide the sums over arbitrary reservation sets (arithmetic).
 """
 
